@@ -1,15 +1,17 @@
 import sys
 M = {
  'M1-relative-octave-method': ('musiclang/write/note.py', "            if not self.is_relative:\n                result += f\".o({self.octave})\"", "            if self.is_relative:\n                result += f\".o({self.octave})\""),
- 'M2-negative-octave-dropped': ('musiclang/write/note.py', "        if self.octave != 0 and self.is_note:", "        if self.octave > 0 and self.is_note:"),
+ 'M2-negative-octave-dropped': ('musiclang/write/note.py', "        if self.octave != 0 and (self.is_note or self.type == 'x'):", "        if self.octave > 0 and (self.is_note or self.type == 'x'):"),
  'M3-single-tag-dropped': ('musiclang/write/note.py', "        if len(self.tags) > 0:\n            result += f\".add_tags({self.tags})\"", "        if len(self.tags) > 1:\n            result += f\".add_tags({self.tags})\""),
  'M4-degree-name-cell': ('musiclang/write/constants.py', None, None),
  'M5-augment-resolution-100': ('musiclang/write/note.py', "        result.duration *= value\n        result.duration = result.duration.limit_denominator(LIMIT_DENOM)", "        result.duration *= value\n        result.duration = result.duration.limit_denominator(100)"),
  'M6-dataframe-denominator-4': ('musiclang/write/sequence/sequence.py', "limit_denominator(8)", "limit_denominator(4)"),
  'M7-silence-copy-drops-tags': ('musiclang/write/note.py', "        return Silence(self.duration, tempo=self.tempo, pedal=self.pedal, tags=set(self.tags))", "        return Silence(self.duration, tempo=self.tempo, pedal=self.pedal)"),
- 'M8-accidental-dropped-for-relative': ('musiclang/write/note.py', "        if self.accident is not None and self.is_note:", "        if self.accident is not None and self.is_note and not self.is_relative:"),
+ 'M8-accidental-dropped-for-relative': ('musiclang/write/note.py', "        if self.accident is not None and self.type not in ('r', 'l'):", "        if self.accident is not None and self.type not in ('r', 'l') and not self.is_relative:"),
  'M9-tonality-octave-sign': ('musiclang/write/tonality.py', "        if self.octave != 0:\n            result += f\".o({self.octave})\"", "        if self.octave != 0:\n            result += f\".o({abs(self.octave)})\""),
  'M10-chord-call-part-index': ('musiclang/write/chord.py', "                named_melodies_result[key_obj + '__' + str(number)] = mel", "                named_melodies_result[key_obj + '__' + str(number % 10)] = mel"),
+ 'M12-amp-zero-written-n': ('musiclang/write/note.py', '                result += ".set_amp(0)"  # `.n` is the rhythmic suffix n (0 quarters)', '                result += ".n"'),
+ 'M13-split-lookahead-only-I': ('musiclang/write/score.py', "(?=[(IV])", "(?=[(I])"),
  'M11-pickle-state-drops-accident': ('musiclang/write/note.py', "    def __getstate__(self):\n        return self.__dict__\n\n    def __setstate__(self, d):\n        self.__dict__ = d\n\n    def __getattr__", "    def __getstate__(self):\n        return {k: v for k, v in self.__dict__.items() if k != 'accident'}\n\n    def __setstate__(self, d):\n        self.__dict__ = d\n        self.__dict__.setdefault('accident', None)\n\n    def __getattr__"),
 }
 name = sys.argv[1]
